@@ -53,6 +53,12 @@ PropOf(e) ==
     [] e.a = "RunSD" -> P_RunSD(e.args.srv, SD(e))
     [] e.a = "Restore" -> P_Restore(e.args.srv)
     [] e.a = "Skip" -> SameGroups
+    \* real one-node server (TestVerifGroupsRealRace): requests through the metadata leader API, two of
+    \* them at the same time in a Race; only the resulting states are judged (the invariants below)
+    [] e.a \in {"Sync", "Race"} -> TRUE
+    \* the server process died while applying what the leader had admitted (Server.Apply panics
+    \* on an operation the FSM cannot apply): no group survives that
+    [] e.a = "Crash" -> FALSE
     [] OTHER -> P_Other
 
 ImplOf(e) ==
@@ -64,6 +70,7 @@ ImplOf(e) ==
     [] e.a = "ChangeCoordinator" -> DoChangeCoordinator(e.args.coord)
     [] e.a = "RunSD" -> DoRunSD(e.args.srv, SD(e))
     [] e.a = "Restore" -> DoRestore(e.args.srv, e.args.order)
+    [] e.a \in {"Sync", "Race", "Crash"} -> TRUE
     [] e.a = "GetAssignments" -> DoGetAssignments(e.args.srv, e.args.c, e.args.e)
     [] OTHER -> UNCHANGED <<gs, pend, parts, idx>>
 
